@@ -27,6 +27,31 @@ SOURCES = {
 }
 
 
+def fanout_copy_rule(ctx, program, rid):
+    """Each subscriber queue of a source receives its own copy of the occurrence's arguments (waits and triggers mutate / return what they receive)."""
+    for uid in ("state.py::State.update", "event.py::Event.update", "mqtt.py::Mqtt.update", "webhook.py::Webhook.update"):
+        f = program.func(uid)
+        puts = [n for n in body_walk(f) if isinstance(n, ast.Call) and isinstance(n.func, ast.Attribute) and n.func.attr in ("put", "put_nowait")]
+        if not puts:
+            raise AnalysisError(f"{uid}: queue.put not found")
+        for p in puts:
+            inloop = False
+            q = getattr(p, "_parent", None)
+            while q is not None and q is not f:
+                if isinstance(q, (ast.For, ast.AsyncFor)):
+                    inloop = True
+                q = getattr(q, "_parent", None)
+            shared = [m for m in ast.walk(p.args[0]) if isinstance(m, ast.Name) and m.id == "func_args"
+                      and not (isinstance(getattr(m, "_parent", None), ast.Attribute) and m._parent.attr == "copy" and isinstance(getattr(m._parent, "_parent", None), ast.Call))]
+            ctx.check(inloop and not shared, rid, uid, "per-subscriber put passes func_args.copy()",
+                      msg=f"{uid}: `{short(p)}` hands the same func_args dictionary to every subscriber: one function's decorator kwargs (merged in place by the trigger loop) leak into "
+                      f"the other functions triggered by the same message", key="fan-out shares func_args", node=p, rel=uid.split("::")[0])
+    f = program.func("state.py::State.notify_var_get")
+    ctx.check(any(isinstance(n, ast.Assign) and norm(n.targets[0]) == "notify_vars" and norm(n.value) == "new_vars.copy()" for n in body_walk(f)), rid, "state.py::State.notify_var_get",
+              "per-subscriber variable dictionary is a copy", msg="State.notify_var_get no longer copies new_vars: subscribers would share (and extend) one dictionary", key="notify_var_get copies",
+              node=f, rel="state.py")
+
+
 def filter_scope_rule(ctx, program, rid):
     """Two messages through the same filter evaluator: the scope the expression is evaluated in (AstEval.local_sym_table at the aeval call) after the second."""
     m1 = DictV([(Const("trigger_type"), Const("event")), (Const("arg1"), Const(20)), (Const("arg2"), Const(30))])
@@ -94,27 +119,7 @@ def run(ctx):
                   node=program.func(new), rel=new.split("::")[0], sample={"keys": sorted(kl)})
 
     ctx.rule("R08.2", "every fan-out gives each subscriber a fresh copy of the argument dictionary", floor=4)
-    for uid in ("state.py::State.update", "event.py::Event.update", "mqtt.py::Mqtt.update", "webhook.py::Webhook.update"):
-        f = program.func(uid)
-        puts = [n for n in body_walk(f) if isinstance(n, ast.Call) and isinstance(n.func, ast.Attribute) and n.func.attr in ("put", "put_nowait")]
-        if not puts:
-            raise AnalysisError(f"{uid}: queue.put not found")
-        for p in puts:
-            inloop = False
-            q = getattr(p, "_parent", None)
-            while q is not None and q is not f:
-                if isinstance(q, (ast.For, ast.AsyncFor)):
-                    inloop = True
-                q = getattr(q, "_parent", None)
-            shared = [m for m in ast.walk(p.args[0]) if isinstance(m, ast.Name) and m.id == "func_args"
-                      and not (isinstance(getattr(m, "_parent", None), ast.Attribute) and m._parent.attr == "copy" and isinstance(getattr(m._parent, "_parent", None), ast.Call))]
-            ctx.check(inloop and not shared, "R08.2", uid, "per-subscriber put passes func_args.copy()",
-                      msg=f"{uid}: `{short(p)}` hands the same func_args dictionary to every subscriber: one function's decorator kwargs (merged in place by the trigger loop) leak into "
-                      f"the other functions triggered by the same message", key="fan-out shares func_args", node=p, rel=uid.split("::")[0])
-    f = program.func("state.py::State.notify_var_get")
-    ctx.check(any(isinstance(n, ast.Assign) and norm(n.targets[0]) == "notify_vars" and norm(n.value) == "new_vars.copy()" for n in body_walk(f)), "R08.2", "state.py::State.notify_var_get",
-              "per-subscriber variable dictionary is a copy", msg="State.notify_var_get no longer copies new_vars: subscribers would share (and extend) one dictionary", key="notify_var_get copies",
-              node=f, rel="state.py")
+    fanout_copy_rule(ctx, program, "R08.2")
 
     ctx.rule("R08.3", "the filter expression sees exactly the dictionary that is dispatched; accepted => one task, rejected => none", floor=8)
     for src, (legacy, new) in SOURCES.items():
